@@ -84,6 +84,30 @@ func c08Gate(c *core.Ctx) {
 			}
 		}
 		c.Check(R, k+"/refusing-edges-close-candidate", u.Pos(), closes >= 4, keyf("%d connection closes on edges that cannot reach MaybeUpgrade (unknown / upgrading / upgraded / create failure)", closes))
+		// each refusing edge closes the candidate itself (a refused candidate that is merely dropped stays connected, unanswered, forever)
+		refusals := []struct {
+			name  string
+			guard core.Guard
+		}{
+			{"unknown-session", notFound()},
+			{"upgrading", boolMethodGuard("Upgrading", true)},
+			{"upgraded", boolMethodGuard("Upgraded", true)},
+		}
+		if ct != nil {
+			refusals = append(refusals, struct {
+				name  string
+				guard core.Guard
+			}{"create-failure", nilGuard(true, func(x *core.Unit, e ast.Expr) bool { return tupleOf(x, e, ct.Expr, 1) })})
+		}
+		for _, rf := range refusals {
+			closed := false
+			for _, cl := range u.Calls() {
+				if (cl.Name == "Close" || cl.Name == "CloseWithError") && g.GuardedBy(cl.Loc, rf.guard) && !g.CanFollow(cl.Loc, mu.Loc) {
+					closed = true
+				}
+			}
+			c.Check(R, keyf("%s/refused(%s)→close-candidate", k, rf.name), u.Pos(), closed, "the refused candidate's connection is closed on this edge")
+		}
 	}
 }
 
